@@ -1430,6 +1430,10 @@ func (c *Conn) reportf(format string, args ...interface{}) {
 }
 
 func clearCapTable(msg *capnp.Message) {
+	if msg == nil {
+		// e.g. the message of a null result pointer
+		return
+	}
 	releaseList(msg.CapTable).release()
 	msg.CapTable = nil
 }
